@@ -292,7 +292,11 @@ class IpV6Anonymizer(_BaseIpAnonymizer):
 
 
 def _anonymize_match(anonymizer, match, undo_ip_anon):
-    ip = anonymizer.make_addr(match)
+    try:
+        ip = anonymizer.make_addr(match)
+    except ValueError:
+        logging.debug("Not a valid address %s, skipping", match)
+        return match
     ip_int = int(ip)
     if not anonymizer.should_anonymize(ip_int):
         logging.debug("Should not anonymize %s, skipping", ip)
